@@ -19,6 +19,7 @@
 //! connection, `T` answer later than the request timeout, `v` RESULT/Void, `d` short delay then go on.
 //!
 //! Output: `rows=<delivered> fin=<end | err:<e>+end | ctor:<e> | dropped> log=<paging state of every EXECUTE>`.
+use crate::mockcluster::{host_id_of, Act, ClusterHandler, MockCluster, NodeSpec, Req, Topology};
 use crate::mocknode::*;
 use crate::rng::Rng;
 use crate::util::{hex, nat_list, unhex};
@@ -69,6 +70,15 @@ struct Case {
     session: bool,
     /// `sessdg`: session pager, idempotent statement, DowngradingConsistencyRetryPolicy
     downgrading: bool,
+    /// `squery`: `Session::query_iter` with an unprepared statement without values (QUERY frames)
+    unprepared: bool,
+    /// `ctl`: the script answers the control connection's paged `system.peers` query while a Session is built
+    ctl: bool,
+    /// `pgk`: the bound values lack the partition-key value (PartitionKeyError before the first fetch)
+    pk_error: bool,
+    /// `clu<n><i|n>`: session pager on an n-node mock cluster, statement idempotent or not (0 = no cluster)
+    cluster: usize,
+    idempotent: bool,
     /// mode 2|3: SCYLLA_USE_METADATA_ID negotiated (3: the node sends full metadata on every page, 2: only
     /// when asked to or when the id presented is stale)
     ext: bool,
@@ -117,11 +127,25 @@ fn fmt_case(skip: bool, consumer: Consumer, pages: &[PageSpec]) -> String {
 
 fn parse_case(line: &str) -> Option<Case> {
     let w: Vec<&str> = line.split_whitespace().collect();
-    if w.len() < 4 || (w[0] != "pg" && w[0] != "sess" && w[0] != "sessdg") {
+    if w.len() < 4 {
         return None;
     }
-    let session = w[0] != "pg";
+    let (mut cluster, mut idempotent) = (0usize, false);
+    if w[0].len() == 5 && w[0].starts_with("clu") {
+        let b = w[0].as_bytes();
+        if !(b'1'..=b'9').contains(&b[3]) || (b[4] != b'i' && b[4] != b'n') {
+            return None;
+        }
+        cluster = (b[3] - b'0') as usize;
+        idempotent = b[4] == b'i';
+    } else if !["pg", "pgk", "sess", "squery", "sessdg", "ctl"].contains(&w[0]) {
+        return None;
+    }
+    let session = !(w[0] == "pg" || w[0] == "pgk");
     let downgrading = w[0] == "sessdg";
+    let unprepared = w[0] == "squery";
+    let pk_error = w[0] == "pgk";
+    let ctl = w[0] == "ctl";
     let (skip, ext, always_full) = match w[1] {
         "0" => (false, false, false),
         "1" => (true, false, false),
@@ -153,7 +177,20 @@ fn parse_case(line: &str) -> Option<Case> {
     if downgrading && pages.iter().any(|p| p.faults.iter().any(|c| !"uWod".contains(*c))) {
         return None; // only these faults are modelled for the downgrading policy
     }
-    Some(Case { session, downgrading, ext, always_full, skip, consumer, pages })
+    // which fault letters a kind knows, and where (the same rule as the model driver's `lettersOk`)
+    let later: Vec<char> = pages.iter().skip(1).flat_map(|p| p.faults.iter().copied()).collect();
+    let all: Vec<char> = pages.iter().flat_map(|p| p.faults.iter().copied()).collect();
+    if later.iter().any(|c| "XkK".contains(*c))
+        || (!session && all.iter().any(|c| "kK".contains(*c)))
+        || (unprepared && all.contains(&'u'))
+        || (cluster > 0 && all.iter().any(|c| !"doUbRrsWi".contains(*c)))
+        || (downgrading && all.contains(&'X'))
+        || (pk_error && ext)
+        || (ctl && (ext || consumer != Consumer::Eager || all.iter().any(|c| !"ud".contains(*c))))
+    {
+        return None;
+    }
+    Some(Case { session, downgrading, unprepared, pk_error, ctl, cluster, idempotent, ext, always_full, skip, consumer, pages })
 }
 
 // ---------------------------------------------------------------------------------------------
@@ -179,6 +216,15 @@ struct Script {
     version: usize,
     applied: Vec<bool>,
     sent_versions: Vec<usize>,
+    /// node (cluster family) the frame being handled arrived on; node of every recorded EXECUTE/QUERY
+    cur_node: usize,
+    exec_nodes: Vec<usize>,
+    /// how each recorded request was answered: 'p' page served, else the fault letter
+    exec_answers: Vec<char>,
+    /// `ctl`: the page script is the answer to the CONTROL CONNECTION's system.peers query (rows = peers)
+    ctl: bool,
+    /// `K`: the session's `USE` after a SetKeyspace first response is answered with an error
+    use_fails: bool,
     /// prepared id of THIS case's statement (every case prepares its own statement text, so a
     /// straggling request of an earlier case can never consume this case's script)
     statement_id: Vec<u8>,
@@ -249,6 +295,43 @@ fn body_prepared_raw(id: &[u8], cols: &[(&str, &[u8])], table: &str, ext: bool) 
     b
 }
 
+/// Host id of the `r`-th scripted peer (`ctl` cases).
+fn peer_host_id(r: i32) -> [u8; 16] {
+    let mut h = [0x22u8; 16];
+    h[14] = (r >> 8) as u8;
+    h[15] = r as u8;
+    h
+}
+
+/// One page of `system.peers`: row `r` is a peer at 127.77.x.y with host id `peer_host_id(r)`.
+fn body_peer_rows(no_metadata: bool, paging_state: Option<&[u8]>, rows: &[i32]) -> Vec<u8> {
+    let mut b = Vec::new();
+    w_int(&mut b, 2);
+    let cols = node_cols(false);
+    w_int(&mut b, (if no_metadata { 0x0004 } else { 0x0001 }) | (if paging_state.is_some() { 0x0002 } else { 0 }));
+    w_int(&mut b, cols.len() as i32);
+    if let Some(ps) = paging_state {
+        w_bytes(&mut b, Some(ps));
+    }
+    if !no_metadata {
+        w_string(&mut b, "system");
+        w_string(&mut b, "peers");
+        for (name, ty) in &cols {
+            w_string(&mut b, name);
+            b.extend_from_slice(ty);
+        }
+    }
+    w_int(&mut b, rows.len() as i32);
+    for r in rows {
+        w_bytes(&mut b, Some(&peer_host_id(*r)));
+        w_bytes(&mut b, Some(&[127, 77, (*r / 250) as u8, (*r % 250) as u8 + 1]));
+        w_bytes(&mut b, Some(b"dc1"));
+        w_bytes(&mut b, Some(b"r1"));
+        w_bytes(&mut b, None);
+    }
+    b
+}
+
 fn body_node_rows(local: bool, no_metadata: bool) -> Vec<u8> {
     let mut b = Vec::new();
     w_int(&mut b, 2);
@@ -270,7 +353,49 @@ fn body_node_rows(local: bool, no_metadata: bool) -> Vec<u8> {
     b
 }
 
+/// The scripted server: QUERY frames with the case's statement text are paged like its EXECUTE frames
+/// (the unprepared session pager); `USE` (sent by the session after a SetKeyspace first response) is
+/// acknowledged or refused.
 fn handler(script: Arc<Mutex<Script>>, min_conn: Arc<AtomicUsize>, ext: bool) -> Handler {
+    let mut inner = handler_inner(Arc::clone(&script), min_conn, ext);
+    Box::new(move |req: &Request| match &req.parsed {
+        Parsed::Query { text, params } if md5ish(text) == script.lock().unwrap().statement_id => {
+            let as_execute = Request {
+                parsed: Parsed::Execute { id: md5ish(text), result_metadata_id: None, params: params.clone() },
+                ..req.clone()
+            };
+            inner(&as_execute)
+        }
+        Parsed::Query { text, .. } if text.starts_with("USE ") => {
+            if script.lock().unwrap().use_fails {
+                vec![Action::Respond(RESP_ERROR, body_error(0x2200, "no such keyspace", &[]))]
+            } else {
+                vec![Action::Respond(RESP_RESULT, body_set_keyspace(text[4..].trim().trim_matches('"')))]
+            }
+        }
+        _ => inner(req),
+    })
+}
+
+/// The same server behind a mock CLUSTER: whichever node receives the frame, the script is one.
+fn cluster_handler(script: Arc<Mutex<Script>>) -> ClusterHandler {
+    let mut h = handler(Arc::clone(&script), Arc::new(AtomicUsize::new(0)), false);
+    Box::new(move |r: &Req| {
+        script.lock().unwrap().cur_node = r.node;
+        let req = Request { seq: r.seq, conn: r.conn, stream: r.stream, flags: r.flags, opcode: r.opcode, body: r.body.clone(), parsed: r.parsed.clone() };
+        h(&req)
+            .into_iter()
+            .map(|a| match a {
+                Action::Respond(op, b) => Act::Respond(op, b),
+                Action::Raw(b) => Act::Raw(b),
+                Action::Delay(d) => Act::Delay(d),
+                Action::Close => Act::Close,
+            })
+            .collect()
+    })
+}
+
+fn handler_inner(script: Arc<Mutex<Script>>, min_conn: Arc<AtomicUsize>, ext: bool) -> Handler {
     let mut control: Vec<(Vec<u8>, bool)> = Vec::new(); // prepared id -> is system.local
     Box::new(move |req: &Request| match &req.parsed {
         // a straggler of an earlier case (its connection was abandoned after a drop / close / timeout)
@@ -284,7 +409,19 @@ fn handler(script: Arc<Mutex<Script>>, min_conn: Arc<AtomicUsize>, ext: bool) ->
             if !control.iter().any(|(i, _)| *i == id) {
                 control.push((id.clone(), local));
             }
+            if !local {
+                let mut s = script.lock().unwrap();
+                if s.ctl {
+                    s.statement_id = id.clone(); // the peers query is this case's paged statement
+                }
+            }
             vec![Action::Respond(RESP_RESULT, body_prepared_raw(&id, &node_cols(local), if local { "local" } else { "peers" }, ext))]
+        }
+        Parsed::Prepare { text } if text.contains("/*pk*/") => {
+            // one bind marker, which is the partition key
+            let rm = ResultMeta { col_count: 1, cols: Some(cols(0)), ..Default::default() };
+            let bind = [Col { name: "p".into(), type_id: 0x0003 }];
+            vec![Action::Respond(RESP_RESULT, body_prepared(&md5ish(text), None, &bind, &[0], &rm))]
         }
         Parsed::Prepare { text } => {
             let s = script.lock().unwrap();
@@ -293,7 +430,9 @@ fn handler(script: Arc<Mutex<Script>>, min_conn: Arc<AtomicUsize>, ext: bool) ->
             let mid = metadata_id(s.version);
             vec![Action::Respond(RESP_RESULT, body_prepared(&md5ish(text), if ext { Some(&mid[..]) } else { None }, &[], &[], &rm))]
         }
-        Parsed::Execute { id, params, .. } if control.iter().any(|(i, _)| i == id) => {
+        Parsed::Execute { id, params, .. }
+            if control.iter().any(|(i, l)| i == id && (*l || !script.lock().unwrap().ctl)) =>
+        {
             let local = control.iter().find(|(i, _)| i == id).unwrap().1;
             vec![Action::Respond(RESP_RESULT, body_node_rows(local, params.skip_metadata))]
         }
@@ -304,9 +443,17 @@ fn handler(script: Arc<Mutex<Script>>, min_conn: Arc<AtomicUsize>, ext: bool) ->
             }
             let pos = s.pos;
             s.execs.push((pos, params.paging_state.clone()));
+            let node = s.cur_node;
+            s.exec_nodes.push(node);
+            s.exec_answers.push('p');
             let mut actions = Vec::new();
             loop {
                 let fault = s.faults.get_mut(pos).and_then(|q| q.pop_front());
+                if let Some(f) = fault {
+                    if f != 'd' && f != 'X' {
+                        *s.exec_answers.last_mut().unwrap() = f;
+                    }
+                }
                 match fault {
                     Some('d') => actions.push(Action::Delay(Duration::from_millis(2))),
                     Some('u') => {
@@ -345,6 +492,35 @@ fn handler(script: Arc<Mutex<Script>>, min_conn: Arc<AtomicUsize>, ext: bool) ->
                         w_int(&mut extra, 2);
                         w_string(&mut extra, "SIMPLE");
                         actions.push(Action::Respond(RESP_ERROR, body_error(0x1100, "write timeout", &extra)));
+                        return actions;
+                    }
+                    Some('U') => {
+                        // Unavailable <cl><required><alive>
+                        let mut extra = Vec::new();
+                        w_short(&mut extra, 0x0001);
+                        w_int(&mut extra, 2);
+                        w_int(&mut extra, 0);
+                        actions.push(Action::Respond(RESP_ERROR, body_error(0x1000, "unavailable", &extra)));
+                        return actions;
+                    }
+                    Some('b') => {
+                        actions.push(Action::Respond(RESP_ERROR, body_error(0x1002, "bootstrapping", &[])));
+                        return actions;
+                    }
+                    Some('i') => {
+                        actions.push(Action::Respond(RESP_ERROR, body_error(0x2200, "invalid", &[])));
+                        return actions;
+                    }
+                    Some('k') | Some('K') => {
+                        s.use_fails = fault == Some('K');
+                        actions.push(Action::Respond(RESP_RESULT, body_set_keyspace("ks1")));
+                        return actions;
+                    }
+                    Some('X') => {
+                        // the caller cancels the constructor as soon as this request has arrived; it is
+                        // answered late (with an error), to nobody
+                        actions.push(Action::Delay(Duration::from_millis(250)));
+                        actions.push(Action::Respond(RESP_ERROR, body_error(0x1001, "answered after the cancellation", &[])));
                         return actions;
                     }
                     Some('s') => {
@@ -397,6 +573,11 @@ fn handler(script: Arc<Mutex<Script>>, min_conn: Arc<AtomicUsize>, ext: bool) ->
                 paging_state: state,
                 new_metadata_id: if stale { Some(current) } else { None },
             };
+            if s.ctl {
+                let values = s.sent.last().unwrap().clone();
+                actions.push(Action::Respond(RESP_RESULT, body_peer_rows(params.skip_metadata, rm.paging_state.as_deref(), &values)));
+                return actions;
+            }
             actions.push(Action::Respond(RESP_RESULT, body_rows(&rm, &rows)));
             actions
         }
@@ -413,8 +594,13 @@ enum Client {
     Sess(Session),
 }
 
+enum Server {
+    Node(MockNode),
+    Cluster(MockCluster),
+}
+
 struct Env {
-    node: MockNode,
+    node: Server,
     script: Arc<Mutex<Script>>,
     min_conn: Arc<AtomicUsize>,
     conn: Option<Client>,
@@ -423,7 +609,7 @@ struct Env {
 thread_local! {
     static RT: tokio::runtime::Runtime = tokio::runtime::Builder::new_current_thread().enable_all().build().unwrap();
     /// one environment per (session?, metadata-id extension?)
-    static ENVS: RefCell<[Option<Env>; 4]> = const { RefCell::new([None, None, None, None]) };
+    static ENVS: RefCell<[Option<Env>; 8]> = const { RefCell::new([None, None, None, None, None, None, None, None]) };
     static CASE_NO: std::cell::Cell<u64> = const { std::cell::Cell::new(0) };
 }
 
@@ -432,6 +618,7 @@ fn pager_error_label(e: &PagerExecutionError) -> String {
         PagerExecutionError::NextPageError(n) => error_label(&NextRowError::NextPageError(n.clone())),
         PagerExecutionError::PrepareError(_) => "PrepareError".to_owned(),
         PagerExecutionError::SerializationError(_) => "SerializationError".to_owned(),
+        PagerExecutionError::UseKeyspaceError(_) => "UseKeyspace".to_owned(),
         _ => "OtherPagerExecutionError".to_owned(),
     }
 }
@@ -571,12 +758,25 @@ where
 
 async fn run_case(case: &Case, ctx: &mut Ctx) -> String {
     // (re)build what is missing
-    let slot = (case.session as usize) * 2 + case.ext as usize;
-    let mut env = ENVS.with(|e| e.borrow_mut()[slot].take());
+    if case.cluster > 4 {
+        return "bad-case".to_owned();
+    }
+    let slot = if case.ctl { 0 } else if case.cluster > 0 { 3 + case.cluster } else { (case.session as usize) * 2 + case.ext as usize };
+    let mut env = if case.ctl { None } else { ENVS.with(|e| e.borrow_mut()[slot].take()) };
     if env.is_none() {
         let script = Arc::new(Mutex::new(Script::default()));
         let min_conn = Arc::new(AtomicUsize::new(0));
-        let node = MockNode::start(case.ext, None, handler(Arc::clone(&script), Arc::clone(&min_conn), case.ext)).await;
+        let node = if case.cluster > 0 {
+            // n unsharded nodes in one datacenter; the control connection's queries are answered by the
+            // cluster itself, everything else by the case's script (whichever node is asked)
+            let nodes = (0..case.cluster)
+                .map(|i| NodeSpec { host_id: host_id_of(i), dc: "dc1".into(), rack: "r1".into(), tokens: vec![(i as i64) * 1000 - 500, (i as i64) * 1000 + 7_000_000], shards: ShardMode::None })
+                .collect();
+            let topo = Topology { nodes, keyspaces: Vec::new(), tablets_ext: false };
+            Server::Cluster(MockCluster::start(topo, cluster_handler(Arc::clone(&script))).await)
+        } else {
+            Server::Node(MockNode::start(case.ext, None, handler(Arc::clone(&script), Arc::clone(&min_conn), case.ext)).await)
+        };
         env = Some(Env { node, script, min_conn, conn: None });
     }
     let mut env = env.unwrap();
@@ -587,19 +787,43 @@ async fn run_case(case: &Case, ctx: &mut Ctx) -> String {
             faults: case.pages.iter().map(|p| p.faults.iter().copied().collect()).collect(),
             ext: case.ext,
             always_full: case.always_full,
+            ctl: case.ctl,
             applied: vec![false; case.pages.len()],
             ..Default::default()
         };
     }
-    env.node.log.lock().unwrap().clear();
+    if let Server::Node(node) = &env.node {
+        node.log.lock().unwrap().clear();
+    }
     if env.conn.is_none() {
+      match &env.node {
+        Server::Cluster(cluster) => {
+            let mut built = None;
+            for attempt in 0..3 {
+                if let Ok(session) = cluster.session_builder().build().await {
+                    if cluster.wait_pools_full(&session, Duration::from_secs(10)).await {
+                        built = Some(session);
+                        break;
+                    }
+                }
+                tokio::time::sleep(Duration::from_millis(100 << attempt)).await;
+            }
+            match built {
+                Some(session) => env.conn = Some(Client::Sess(session)),
+                None => {
+                    ctx.fail("harness: cannot build a session with full pools against the mock cluster");
+                    return "HARNESS-ERROR".to_owned();
+                }
+            }
+        }
+        Server::Node(node) => {
         // connections accepted so far belong to abandoned clients
-        env.min_conn.store(env.node.conn_shards().len(), Ordering::SeqCst);
+        env.min_conn.store(node.conn_shards().len(), Ordering::SeqCst);
         if case.session {
             // a one-node cluster: the control connection's system.peers / system.local are answered by
             // the handler; default execution profile (DefaultRetryPolicy, no speculative execution)
             let session = match SessionBuilder::new()
-                .known_node_addr(env.node.addr)
+                .known_node_addr(node.addr)
                 .fetch_schema_metadata(false)
                 .build()
                 .await
@@ -612,7 +836,7 @@ async fn run_case(case: &Case, ctx: &mut Ctx) -> String {
             };
             env.conn = Some(Client::Sess(session));
         } else {
-            let conn = match VerifConn::open(env.node.addr, VerifConnOptions::default()).await {
+            let conn = match VerifConn::open(node.addr, VerifConnOptions::default()).await {
                 Ok(c) => c,
                 Err(e) => {
                     ctx.fail(format!("harness: cannot open connection: {e}"));
@@ -621,6 +845,8 @@ async fn run_case(case: &Case, ctx: &mut Ctx) -> String {
             };
             env.conn = Some(Client::Conn(conn));
         }
+        }
+      }
     }
     // every case prepares its own statement text (one PREPARE round trip): the prepared id tags the
     // case's EXECUTE frames, so a request still in flight from an earlier case cannot touch this script
@@ -628,10 +854,15 @@ async fn run_case(case: &Case, ctx: &mut Ctx) -> String {
         c.set(c.get() + 1);
         c.get()
     });
-    let text = format!("{} WHERE case_no = {}", QUERY, case_no);
-    env.script.lock().unwrap().statement_id = md5ish(&text);
+    let text = format!("{} WHERE case_no = {}{}", QUERY, case_no, if case.pk_error { " AND p = ? /*pk*/" } else { "" });
+    if !case.ctl {
+        env.script.lock().unwrap().statement_id = md5ish(&text);
+    }
     let mut st = Statement::new(text);
     st.set_page_size(5000);
+    // (the unprepared pager gets the statement itself; it is prepared here as well only to keep one code
+    // path for the statement's settings - the PREPARE is not part of what is observed)
+    let unprepared_statement = st.clone();
     let prepared = match env.conn.as_ref().unwrap() {
         Client::Conn(c) => c.prepare(&st).await,
         Client::Sess(s) => s.prepare(st).await.map_err(|e| e.to_string()),
@@ -644,7 +875,7 @@ async fn run_case(case: &Case, ctx: &mut Ctx) -> String {
         }
     };
     let has_timeout_fault = case.pages.iter().any(|p| p.faults.contains(&'T'));
-    let dirty = case.pages.iter().any(|p| p.faults.contains(&'T') || p.faults.contains(&'c'));
+    let dirty = case.ctl || case.pages.iter().any(|p| p.faults.iter().any(|c| "TcXkK".contains(*c)));
     let conn = env.conn.as_ref().unwrap();
     prepared.set_use_cached_result_metadata(case.skip);
     if case.downgrading {
@@ -652,15 +883,61 @@ async fn run_case(case: &Case, ctx: &mut Ctx) -> String {
         prepared.set_retry_policy(Some(Arc::new(DowngradingConsistencyRetryPolicy::new())));
     }
     prepared.set_request_timeout(if has_timeout_fault { Some(REQUEST_TIMEOUT) } else { None });
+    if case.cluster > 0 {
+        prepared.set_is_idempotent(case.idempotent);
+    }
+    let mut unprepared_statement = unprepared_statement;
+    unprepared_statement.set_request_timeout(if has_timeout_fault { Some(REQUEST_TIMEOUT) } else { None });
+    let cancel_ctor = case.pages[0].faults.contains(&'X');
+    let unprepared = case.unprepared;
 
     let script = Arc::clone(&env.script);
     let consumer = case.consumer;
     let case_ext = case.ext;
+    let case_ctl = case.ctl;
     let body = async {
         let mut obs = Observed { delivered: Vec::new(), shapes: Vec::new(), fin: String::new() };
-        let pager = match conn {
-            Client::Conn(c) => c.execute_iter_raw(prepared, SerializedValues::new()).await.map_err(|e| error_label(&e)),
-            Client::Sess(s) => s.execute_iter(prepared, ()).await.map_err(|e| pager_error_label(&e)),
+        if case_ctl {
+            // the pager under test ran inside the session's metadata fetch (ControlConnection::query_iter ->
+            // Connection::execute_iter): the rows it delivered are the peers the session knows
+            if let Client::Sess(session) = conn {
+                let state = session.get_cluster_state();
+                let mut found: Vec<i32> = state
+                    .get_nodes_info()
+                    .iter()
+                    .filter_map(|n| {
+                        let h = n.host_id.as_bytes();
+                        (h[0] == 0x22).then(|| ((h[14] as i32) << 8) | h[15] as i32)
+                    })
+                    .collect();
+                found.sort_unstable();
+                obs.shapes = vec![0; found.len()];
+                obs.delivered = found;
+                obs.fin = "end".to_owned();
+            }
+            return obs;
+        }
+        let ctor = async {
+            match conn {
+                Client::Conn(c) => c.execute_iter_raw(prepared, SerializedValues::new()).await.map_err(|e| error_label(&e)),
+                Client::Sess(s) if unprepared => s.query_iter(unprepared_statement, ()).await.map_err(|e| pager_error_label(&e)),
+                Client::Sess(s) => s.execute_iter(prepared, ()).await.map_err(|e| pager_error_label(&e)),
+            }
+        };
+        let pager = if cancel_ctor {
+            // drop the constructor future as soon as the node has received the first page request
+            let arrived = async {
+                while script.lock().unwrap().exec_answers.last() != Some(&'p') {
+                    tokio::task::yield_now().await;
+                }
+            };
+            tokio::select! {
+                biased;
+                p = ctor => p,
+                _ = arrived => Err("Cancelled".to_owned()),
+            }
+        } else {
+            ctor.await
         };
         let pager = match pager {
             Ok(p) => p,
@@ -792,6 +1069,29 @@ async fn run_case(case: &Case, ctx: &mut Ctx) -> String {
             ));
         }
     }
+    // 2b. PartitionKeyError: the constructor fails before anything is sent
+    if case.pk_error && (obs.fin != "ctor:PartitionKey" || !s.execs.is_empty()) {
+        ctx.fail(format!("the bound values lack the partition key: expected ctor:PartitionKey and no request, got fin={} and {} request(s)", obs.fin, s.execs.len()));
+    }
+    // 2c. cluster: which node gets which request (pager.rs 337-365 coordinator stability; RetryNextTarget
+    //     goes to another node, RetrySameTarget to the same one) - the paging state is checked above and
+    //     does not depend on the node
+    if case.cluster > 0 {
+        for i in 1..s.execs.len() {
+            let (prev_pos, cur_pos) = (s.execs[i - 1].0, s.execs[i].0);
+            let (prev_node, cur_node) = (s.exec_nodes[i - 1], s.exec_nodes[i]);
+            let prev_answer = s.exec_answers[i - 1];
+            if cur_pos == prev_pos + 1 && prev_answer == 'p' && cur_node != prev_node {
+                ctx.fail(format!("request #{} (first attempt for page {}) went to node {} although page {} was served by node {}", i, cur_pos, cur_node, prev_pos, prev_node));
+            }
+            if cur_pos == prev_pos && prev_answer == 'R' && cur_node != prev_node {
+                ctx.fail(format!("request #{} retries page {} on node {} after a same-target retry decision on node {}", i, cur_pos, cur_node, prev_node));
+            }
+            if cur_pos == prev_pos && "oUbs".contains(prev_answer) && cur_node == prev_node {
+                ctx.fail(format!("request #{} retries page {} on the SAME node {} after a next-target retry decision", i, cur_pos, cur_node));
+            }
+        }
+    }
     // 3. the expected end of the story, from the script alone
     // which faults are final is the documented behaviour of the two pagers: the single-connection pager
     // never retries (only the transparent re-prepare after UNPREPARED, once per attempt); the session
@@ -809,7 +1109,37 @@ async fn run_case(case: &Case, ctx: &mut Ctx) -> String {
     } else {
         None
     };
+    let cluster = case.cluster;
+    let idempotent = case.idempotent;
     let fatal_page = case.pages.iter().position(|p| {
+        if cluster > 0 {
+            // DefaultRetryPolicy (default.rs 57-170) over a plan of `cluster` targets, one retry session per page
+            let (mut targets_left, mut unavailable_retried, mut read_retried) = (cluster, false, false);
+            for c in p.faults.iter() {
+                let next_target = match c {
+                    'd' => continue,
+                    'o' | 's' => idempotent,
+                    'b' => true,
+                    'U' if !unavailable_retried => {
+                        unavailable_retried = true;
+                        true
+                    }
+                    'R' if !read_retried => {
+                        read_retried = true;
+                        continue; // same target once more
+                    }
+                    _ => return true,
+                };
+                if !next_target {
+                    return true;
+                }
+                targets_left -= 1;
+                if targets_left == 0 {
+                    return true; // the plan ran out: the last error is final
+                }
+            }
+            return false;
+        }
         let mut unprepared = false;
         let mut read_retry = false;
         for c in p.faults.iter() {
@@ -854,7 +1184,7 @@ async fn run_case(case: &Case, ctx: &mut Ctx) -> String {
     // #631: non-SELECT statements run through the iterator API), an empty stream and not an error
     let void_first = session && {
         let f: Vec<char> = case.pages[0].faults.iter().copied().filter(|c| *c != 'd').collect();
-        matches!(f.as_slice(), ['v', ..] | ['u', 'v', ..] | ['R', 'v', ..] | ['u', 'R', 'v', ..] | ['R', 'u', 'v', ..])
+        matches!(f.as_slice(), ['v' | 'k', ..] | ['u', 'v' | 'k', ..] | ['R', 'v' | 'k', ..] | ['u', 'R', 'v' | 'k', ..] | ['R', 'u', 'v' | 'k', ..])
     };
     if void_first && ignored_page.is_none() && obs.fin != "dropped" {
         if obs.fin != "end" || !obs.delivered.is_empty() {
@@ -863,7 +1193,9 @@ async fn run_case(case: &Case, ctx: &mut Ctx) -> String {
     }
     let fatal_page = if void_first { None } else { fatal_page };
     let void_first = void_first || ignored_page.is_some();
-    if obs.fin != "dropped" && !void_first {
+    if case.pk_error {
+        // judged above
+    } else if obs.fin != "dropped" && !void_first {
         match fatal_page {
             None => {
                 let all = rows_before(last_page + 1);
@@ -1036,6 +1368,211 @@ pub fn generate(rng: &mut Rng, tier: Tier, emit: &mut dyn FnMut(String)) {
     gen_family(rng, tier == Tier::Thorough, true, emit);
     gen_downgrading(rng, tier == Tier::Thorough, emit);
     gen_metadata_changes(rng, tier == Tier::Thorough, emit);
+    gen_cluster(rng, tier == Tier::Thorough, emit);
+    gen_unprepared(rng, tier == Tier::Thorough, emit);
+    gen_constructor(rng, tier == Tier::Thorough, emit);
+    gen_control(rng, tier == Tier::Thorough, emit);
+}
+
+/// The control connection's own pager: while a Session is built, its metadata fetch pages through
+/// `system.peers` (ControlConnection::query_iter -> Connection::execute_iter); the script is that answer.
+fn gen_control(rng: &mut Rng, thorough: bool, emit: &mut dyn FnMut(String)) {
+    let (len, size, rows) = if thorough { (4, 2, 5) } else { (3, 2, 4) };
+    let mut tick = 0usize;
+    for sizes in compositions(len, size, rows) {
+        let n = sizes.len();
+        let sts = states(rng, n, false);
+        tick += 1;
+        emit(with_kind(fmt_case(tick % 2 == 0, Consumer::Eager, &build(&sizes, &sts, &[])), "ctl"));
+        if thorough || tick % 3 == 0 {
+            let mut faults = vec![vec![]; n];
+            faults[tick % n] = vec!['u'];
+            faults[(tick / 2) % n].insert(0, 'd');
+            emit(with_kind(fmt_case(tick % 2 == 1, Consumer::Eager, &build(&sizes, &sts, &faults)), "ctl"));
+        }
+    }
+    for _ in 0..(if thorough { 1_500 } else { 150 }) {
+        let n = 1 + rng.below(8) as usize;
+        let sizes: Vec<usize> = (0..n).map(|_| if rng.chance(1, 4) { 0 } else { 1 + rng.below(8) as usize }).collect();
+        let repeat = rng.below(8) == 0;
+        let sts = states(rng, n, repeat);
+        let mut faults = vec![vec![]; n];
+        for f in faults.iter_mut() {
+            match rng.below(6) {
+                0 => *f = vec!['u'],
+                1 => *f = vec!['d'],
+                _ => {}
+            }
+        }
+        let mut pages = build(&sizes, &sts, &faults);
+        if rng.chance(1, 10) {
+            reshape(rng, &mut pages, &sts);
+        }
+        let skipf = rng.bool();
+        emit(with_kind(fmt_case(skipf, Consumer::Eager, &pages), "ctl"));
+    }
+}
+
+fn with_kind(line: String, kind: &str) -> String {
+    let rest = line.split_once(' ').map(|x| x.1.to_owned()).unwrap_or_default();
+    format!("{} {}", kind, rest)
+}
+
+/// Session pager on a 2- or 3-node mock cluster: page fetches that fail over to another node
+/// (RetryNextTarget: overloaded / server error when idempotent, unavailable once, bootstrapping), retry on
+/// the same node (digest-only read timeout), run out of nodes, or stop at once (not idempotent, other
+/// errors). The model composes C06's execution-core model with the page loop (Model/PagerExec.lean).
+fn gen_cluster(rng: &mut Rng, thorough: bool, emit: &mut dyn FnMut(String)) {
+    const FAULTS: [&str; 22] = [
+        "o", "oo", "ooo", "U", "UU", "b", "bb", "bbb", "R", "RR", "s", "r", "W", "i", "oR", "Ro", "bU", "Ub", "dod", "oUb", "RoR", "sb",
+    ];
+    let kinds = ["clu2i", "clu2n", "clu3i", "clu3n"];
+    let (len, size, rows) = if thorough { (4, 2, 5) } else { (3, 2, 4) };
+    let mut tick = 0usize;
+    for sizes in compositions(len, size, rows) {
+        let n = sizes.len();
+        let total: usize = sizes.iter().sum();
+        for k in 0..n {
+            for f in FAULTS {
+                tick += 1;
+                if !thorough && tick % 2 == 1 {
+                    continue;
+                }
+                let mut faults = vec![vec![]; n];
+                faults[k] = f.chars().collect();
+                let sts = states(rng, n, false);
+                let consumer = match tick % 11 {
+                    0 => Consumer::Slow,
+                    1 => Consumer::Drop(tick % (total + 1)),
+                    2 => Consumer::PollDrop(tick % (total + 1)),
+                    _ => Consumer::Eager,
+                };
+                emit(with_kind(fmt_case(tick % 4 < 2, consumer, &build(&sizes, &sts, &faults)), kinds[tick % 4]));
+            }
+        }
+    }
+    for _ in 0..(if thorough { 15_000 } else { 1_500 }) {
+        let n = 1 + rng.below(10) as usize;
+        let sizes: Vec<usize> = (0..n).map(|_| if rng.chance(1, 5) { 0 } else { 1 + rng.below(20) as usize }).collect();
+        let total: usize = sizes.iter().sum();
+        let sts = states(rng, n, false);
+        let mut faults = vec![vec![]; n];
+        for f in faults.iter_mut() {
+            if rng.chance(1, 3) {
+                let m = 1 + rng.below(3);
+                for _ in 0..m {
+                    f.push(*rng.pick(&['o', 'o', 'b', 'U', 'R', 's', 'd']));
+                }
+            }
+        }
+        if rng.chance(1, 5) {
+            let j = rng.below(n as u64) as usize;
+            faults[j].push(*rng.pick(&['r', 'W', 'i']));
+        }
+        let mut pages = build(&sizes, &sts, &faults);
+        if rng.chance(1, 12) {
+            reshape(rng, &mut pages, &sts);
+        }
+        let consumer = match rng.below(8) {
+            0 | 1 => Consumer::Slow,
+            2 => Consumer::Drop(rng.below(total as u64 + 2) as usize),
+            3 => Consumer::PollDrop(rng.below(total as u64 + 2) as usize),
+            _ => Consumer::Eager,
+        };
+        let skipf = rng.bool();
+        let kind = *rng.pick(&kinds[..]);
+        emit(with_kind(fmt_case(skipf, consumer, &pages), kind));
+    }
+}
+
+/// `Session::query_iter` with an unprepared statement without values: QUERY frames carry the paging state.
+fn gen_unprepared(rng: &mut Rng, thorough: bool, emit: &mut dyn FnMut(String)) {
+    let (len, size, rows) = if thorough { (4, 2, 5) } else { (3, 2, 4) };
+    let mut tick = 0usize;
+    for sizes in compositions(len, size, rows) {
+        let n = sizes.len();
+        let total: usize = sizes.iter().sum();
+        let sts = states(rng, n, false);
+        emit(with_kind(fmt_case(false, Consumer::Eager, &build(&sizes, &sts, &[])), "squery"));
+        for k in 0..n {
+            for f in ["o", "R", "RR", "v", "r", "s", "dR", "W"] {
+                tick += 1;
+                let mut faults = vec![vec![]; n];
+                faults[k] = f.chars().collect();
+                let sts = states(rng, n, false);
+                let consumer = match tick % 9 {
+                    0 => Consumer::Slow,
+                    1 => Consumer::Drop(tick % (total + 1)),
+                    2 => Consumer::PollDrop(tick % (total + 1)),
+                    _ => Consumer::Eager,
+                };
+                emit(with_kind(fmt_case(false, consumer, &build(&sizes, &sts, &faults)), "squery"));
+            }
+        }
+    }
+    for _ in 0..(if thorough { 10_000 } else { 1_000 }) {
+        let n = 1 + rng.below(12) as usize;
+        let sizes: Vec<usize> = (0..n).map(|_| if rng.chance(1, 5) { 0 } else { 1 + rng.below(25) as usize }).collect();
+        let total: usize = sizes.iter().sum();
+        let repeat = rng.below(10) == 0;
+        let sts = states(rng, n, repeat);
+        let mut faults = vec![vec![]; n];
+        for f in faults.iter_mut() {
+            match rng.below(8) {
+                0 => *f = vec!['R'],
+                1 => *f = vec!['d'],
+                _ => {}
+            }
+        }
+        if rng.chance(1, 4) {
+            let j = rng.below(n as u64) as usize;
+            faults[j].push(*rng.pick(&['o', 'r', 's', 'W', 'R']));
+            if j > 0 && rng.chance(1, 3) {
+                faults[j] = vec!['v'];
+            }
+        }
+        let mut pages = build(&sizes, &sts, &faults);
+        if rng.chance(1, 12) {
+            reshape(rng, &mut pages, &sts);
+        }
+        let consumer = match rng.below(8) {
+            0 | 1 => Consumer::Slow,
+            2 => Consumer::Drop(rng.below(total as u64 + 2) as usize),
+            3 => Consumer::PollDrop(rng.below(total as u64 + 2) as usize),
+            _ => Consumer::Eager,
+        };
+        emit(with_kind(fmt_case(false, consumer, &pages), "squery"));
+    }
+}
+
+/// Constructor paths: PartitionKeyError before the first fetch (`pgk`), the constructor future dropped
+/// while the first response is outstanding (`X`), a SetKeyspace first response whose `USE` succeeds (`k`)
+/// or fails (`K`).
+fn gen_constructor(rng: &mut Rng, thorough: bool, emit: &mut dyn FnMut(String)) {
+    let shapes: Vec<Vec<usize>> = vec![vec![0], vec![2], vec![1, 1], vec![0, 2, 1], vec![3, 0, 0, 2]];
+    let reps = if thorough { 4 } else { 1 };
+    for _ in 0..reps {
+        for sizes in &shapes {
+            let n = sizes.len();
+            let sts = states(rng, n, false);
+            for skip in [false, true] {
+                emit(with_kind(fmt_case(skip, Consumer::Eager, &build(sizes, &sts, &[])), "pgk"));
+            }
+            for (kind, faults) in [
+                ("pg", vec!["X", "dX", "uX"]),
+                ("sess", vec!["X", "uX", "RX", "k", "K", "dk", "uk", "Rk", "uK"]),
+                ("squery", vec!["X", "RX", "k", "K", "Rk"]),
+            ] {
+                for f in faults {
+                    let mut fl = vec![vec![]; n];
+                    fl[0] = f.chars().collect();
+                    let consumer = if f.contains('k') && n > 1 { Consumer::Drop(0) } else { Consumer::Eager };
+                    let consumer = if rng.chance(1, 3) { consumer } else { Consumer::Eager };
+                    emit(with_kind(fmt_case(false, consumer, &build(sizes, &sts, &fl)), kind));
+                }
+            }
+        }
+    }
 }
 
 /// SCYLLA_USE_METADATA_ID negotiated; the statement's result metadata changes before page j (the page
